@@ -12,6 +12,8 @@ import (
 	"os"
 	"runtime"
 	"runtime/pprof"
+	"strconv"
+	"strings"
 	"time"
 
 	"github.com/free5gc/nas/logger"
@@ -31,6 +33,8 @@ var (
 	info     = flag.Bool("info", false, "print catalogue information and exit")
 	withPlan = flag.Bool("plans", false, "include the executed plan in every record")
 	procs    = flag.Int("procs", 0, "GOMAXPROCS (0 = leave)")
+	indices  = flag.String("indices", "", "comma separated run indices (instead of -from/-to/-stride)")
+	planOnly = flag.Bool("planonly", false, "print the plans of the selected indices without executing them")
 	cpuprof  = flag.String("cpuprofile", "", "write a CPU profile (development)")
 )
 
@@ -158,9 +162,25 @@ func main() {
 	}
 
 	runs := 0
-	for idx := *from; idx < *to; idx += *stride {
+	var todo []uint64
+	if *indices != "" {
+		for _, f := range strings.Split(*indices, ",") {
+			if v, err := strconv.ParseUint(strings.TrimSpace(f), 10, 64); err == nil {
+				todo = append(todo, v)
+			}
+		}
+	} else {
+		for idx := *from; idx < *to; idx += *stride {
+			todo = append(todo, idx)
+		}
+	}
+	for _, idx := range todo {
 		emit(map[string]uint64{"start": idx})
 		p := harness.PlanRun(*seed, idx, *tier)
+		if *planOnly {
+			emit(p)
+			continue
+		}
 		rec := harness.ExecRun(p)
 		attach(rec)
 		if len(rec.Violations) == 0 && !*withPlan && !rec.Hang {
